@@ -10,6 +10,7 @@ type Property struct {
 }
 
 func jsonUnmarshal(b []byte, v any) error { return json.Unmarshal(b, v) }
+func jsonMarshal(v any) ([]byte, error)    { return json.Marshal(v) }
 
 // properties lists, for each claimed property, the rules that decide its structural clauses.
 // See /verif/DESIGN.md section 3.
